@@ -39,11 +39,11 @@ Fixpoint all_some (l : list oq) : option (list Q) :=
   | Some x :: r => match all_some r with Some r' => Some (x :: r') | None => None end
   | None :: _ => None
   end.
-(* the implementation's (finite, contiguous) output re-read as a model series *)
+(* the implementation's (finite) output re-read as a model series, on whatever index it carries *)
 Definition to_series (o : iseries) : option series :=
-  match fst o, all_some (snd o) with
-  | t :: _, Some v => if zlist_eqb (times_from t (length v)) (fst o) then Some (t, v) else None
-  | _, _ => None
+  match all_some (snd o) with
+  | Some v => if (length v =? length (fst o))%nat then Some (combine (fst o) v) else None
+  | None => None
   end.
 
 (* transform of z must be zt, the model inverse applied to the implementation's zt must be zi,
@@ -85,10 +85,10 @@ Definition check (c : case) : bool :=
       let d1 := match cond with
                 | Some false =>
                     cond_fit (fun _ _ => false) (fun _ _ _ => []) (d_sp d0) (d_model d0)
-                             (d_t0 d0, [])
+                             [(d_t0 d0, 0%Q)]
                 | _ => d0
                 end in
-      let d := des_after des_update d1 (map (fun u => (u, [])) ups) in
+      let d := des_after des_update d1 (map (fun u => [(u, 0%Q)]) ups) in
       qlist_close (d_seasonal d1) (d_seasonal d0) &&
       (Z.of_nat (length (d_seasonal d0)) =? d_sp d0) &&
       agree (des_transform d) (des_inverse d) z zt zi
